@@ -134,6 +134,10 @@ structure Cont where
   pending : Option (List Cmp) := none
   /-- a `WatchLeader` call is blocked in `Leadership.Watch` on the record it found -/
   watching : Bool := false
+  /-- a `Reset` / `ResetLeader` call of this contender is inside `lease.Close`, parked around its Revoke request
+      (the local view is already "expired"): `some (pre, leader)` – `pre`: the request has not reached etcd yet;
+      `leader`: the call is `Member.ResetLeader`, which unsets the leader cache after `Reset` returns -/
+  closing : Option (Bool × Bool) := none
   deriving Repr
 
 def Expire.expiredAt (x : Expire) (now : Nat) : Bool :=
@@ -289,6 +293,8 @@ inductive LOp where
   | finish (f : Fault) (rv : Bool)
   | keep
   | resetl (rv : Bool)
+  | gresetl (pre leader : Bool)
+  | rfinish (rv : Bool)
   | delkey (f : Fault) (rv : Bool)
   | write (w : WKind) (f : Fault)
   | check
@@ -315,11 +321,12 @@ inductive Op where
 def loc (x : Loc) : LOp → Loc × Out
   | .clock t => ({ x with c := { x.c with clock := t } }, .ok)
   | .campaign ttl extra f rv =>
-    if x.c.pending.isSome then (x, .bad) else
+    if x.c.pending.isSome || x.c.closing.isSome then (x, .bad) else
     match grantStep x ttl extra with
     | (x1, .parked) => finishStep x1 f rv
     | r => r
-  | .gcampaign ttl extra => if x.c.pending.isSome then (x, .bad) else grantStep x ttl extra
+  | .gcampaign ttl extra =>
+    if x.c.pending.isSome || x.c.closing.isSome then (x, .bad) else grantStep x ttl extra
   | .finish f rv => finishStep x f rv
   | .keep =>
     -- one KeepAlive call delivering its first tick: KeepAliveOnce succeeds iff the lease is live,
@@ -333,6 +340,26 @@ def loc (x : Loc) : LOp → Loc × Out
         ({ x with c := { x.c with lease := some { l with expire := .at (x.c.clock + l.ttl) } } }, .ok)
       else (x, .ok)
   | .resetl rv => if x.c.pending.isSome then (x, .bad) else (resetStep x rv, .ok)
+  | .gresetl pre leader =>
+    -- `Reset` (leader = false) or `ResetLeader` (leader = true) running concurrently with the contender's other
+    -- calls, parked inside `lease.Close` around the Revoke request: `Close` has stored the zero time first;
+    -- the request has (pre = false) or has not yet (pre = true) been applied by etcd
+    if x.c.pending.isSome || x.c.closing.isSome then (x, .bad) else
+    match x.c.lease with
+    | none => ({ x with c := { x.c with won := false, cache := if leader then 0 else x.c.cache } }, .ok)
+    | some l =>
+      ({ x with
+         c := { x.c with won := false, lease := some { l with expire := .closed }, closing := some (pre, leader) }
+         etcd := if pre then x.etcd else x.etcd.revoke l.id }, .parked)
+  | .rfinish rv =>
+    -- the parked Revoke request of `gresetl` goes out (or is lost) / its answer arrives; `Close` returns
+    match x.c.closing with
+    | none => (x, .bad)
+    | some (pre, leader) =>
+      ({ x with
+         c := { x.c with closing := none, cache := if leader then 0 else x.c.cache }
+         etcd := if pre && rv then x.etcd.revoke (match x.c.lease with | some l => l.id | none => 0) else x.etcd },
+       .ok)
   | .delkey f rv =>
     if x.c.pending.isSome then (x, .bad) else
     let (e1, o) := runTxn x.etcd [] [.del (.leader x.c.key)] f
